@@ -5,6 +5,7 @@
 // Replaced: the OS thread scheduler (sim/sched.cpp). ThreadSanitizer runs
 // inside every simulated run.
 
+#include <locale>
 #include <sstream>
 #include <thread>
 
@@ -61,6 +62,72 @@ void worker( Job* job)
    job->conc = recipes::evaluate( job->cfg);
 }
 
+/// One fixed single-threaded pass over the recipe menu per process.
+void warmUp()
+{
+   static bool  done = false;
+   if (done) return;
+   done = true;
+   // libstdc++ fills the narrow table of std::ctype<char> per character on
+   // first use (a documented benign race of the library, not Celma state)
+   {
+      auto const&  ct = std::use_facet< std::ctype< char>>( std::locale());
+      char         lo[ 256], dst[ 256];
+      for (int c = 0; c < 256; ++c) lo[ c] = static_cast< char>( c);
+      ct.narrow( lo, lo + 256, '?', dst);
+      ct.widen( lo, lo + 256, dst);
+      for (int c = 0; c < 256; ++c) { (void) ct.narrow( static_cast< char>( c), '\0'); (void) ct.widen( static_cast< char>( c)); }
+   }
+   static const char* const  sets[] = { "R1", "R2", "R3", "R4", "R5", "R6", "R7", "R8", "R11", "R12" };
+   static const char* const  checks[] = { "", "lower", "upper", "range", "values", "pattern", "minlen" };
+   static const char* const  cards[] = { "", "max", "exact", "range" };
+   static const char* const  cons[] = { "", "requires", "excludes", "all_of", "any_of", "one_of" };
+   Rng  rng( 12345, "warmup");
+   for (unsigned round = 0; round < 48; ++round)
+   {
+      Json  recipe = Json::object();
+      Json  chosen = Json::array();
+      chosen.push( sets[ round % 10]);
+      chosen.push( sets[ (round * 7 + 3) % 10]);
+      recipe[ "sets"] = chosen;
+      recipe[ "sep"] = (round % 3) ? ";" : ",";
+      recipe[ "multi"] = (round % 4) == 1;
+      recipe[ "sort"] = (round % 2) == 1;
+      recipe[ "unique"] = static_cast< long long>( round % 3);
+      recipe[ "clear"] = (round % 5) == 1;
+      recipe[ "check"] = checks[ round % 7];
+      recipe[ "fmt"] = (round % 3) == 0 ? "upper" : ((round % 3) == 1 ? "lower" : "");
+      recipe[ "card"] = cards[ round % 4];
+      recipe[ "constraint"] = cons[ round % 6];
+      recipe[ "mandatory"] = (round % 6) == 2;
+      recipe[ "optmode"] = (round % 2) ? "optional" : "required";
+      recipe[ "pairfmt"] = (round % 4) == 3;
+      recipe[ "token"] = "warm";
+      recipes::Built  built;
+      {
+         recipes::Dest       d;
+         std::ostringstream  o1, o2;
+         try
+         {
+            Handler  h( o1, o2, 0);
+            recipes::build( h, nullptr, d, recipe, built);
+         } catch (const std::exception&)
+         {
+         }
+      }
+      recipes::EvalCfg  cfg;
+      cfg.recipe = &recipe;
+      cfg.flags = Handler::hfUsageCont | Handler::hfHelpShort | Handler::hfHelpLong | ((round % 2) ? Handler::hfVerboseArgs : 0)
+                  | ((round % 3) ? Handler::hfListArgVar : 0) | ((round % 5) == 0 ? Handler::hfNoAbbr : 0);
+      cfg.argv = recipes::grammarWords( rng, built, (round % 3) == 0);
+      cfg.argv.insert( cfg.argv.begin(), "warm");
+      if ((round % 4) == 0) cfg.argv.push_back( "--help");
+      if ((round % 8) == 1) cfg.argv.push_back( "--list-arg-vars");
+      cfg.repeat = 1 + (round % 2);
+      (void) recipes::evaluate( cfg);
+   }
+}
+
 class C09 final: public sim::Harness
 {
 public:
@@ -98,6 +165,14 @@ public:
             static const char* const  list_sets[] = { "R4", "R5", "R6", "R7", "R8" };
             recipe[ "sets"].push( list_sets[ cfg.below( 5)]);
          }
+         // run and thread specific text for patterns / value lists
+         {
+            static const char  alpha[] = "abcdefghijklmnopqrstuvwxyz";
+            std::string  token = "t";
+            for (int c = 0; c < 6; ++c) token.push_back( alpha[ cfg.below( 26)]);
+            recipe[ "token"] = token;
+            if (cfg.chance( 1, 3)) { recipe[ "check"] = cfg.chance( 1, 2) ? "pattern" : "values"; if (!recipes::has( recipe, "R2")) recipe[ "sets"].push( "R2"); }
+         }
          job[ "recipe"] = recipe;
          Json  flags = Json::array();
          if (cfg.chance( 1, 6)) { flags.push( "hfHelpShort"); flags.push( "hfHelpLong"); }
@@ -106,17 +181,7 @@ public:
          if (cfg.chance( 1, 8)) flags.push( "hfListArgVar");
          job[ "flags"] = flags;
          recipes::Built  built;
-         {
-            recipes::Dest       d;
-            std::ostringstream  o1, o2;
-            try
-            {
-               Handler  h( o1, o2, 0);
-               recipes::build( h, nullptr, d, recipe, built);
-            } catch (const std::exception&)
-            {
-            }
-         }
+         recipes::describeRecipe( recipe, built, false);
          std::vector< std::string>  words = recipes::grammarWords( wl, built, wl.chance( 1, 3));
          if (flags.size() >= 2 && flags.at( 0).s() == "hfHelpShort" && wl.chance( 1, 2))
             words.insert( words.begin(), wl.chance( 1, 2) ? "--help" : "-h");
@@ -172,15 +237,9 @@ public:
       else if (k <= 8) st.probe( P_threads_5_8);
       else st.probe( P_threads_9_16);
 
-      // "running alone": the same jobs one after the other on this thread. This
-      // also initialises every function-local static on these paths before a
-      // second thread exists.
-      for (auto & job : jobs)
-      {
-         job.solo = recipes::evaluate( job.cfg);
-         if (job.solo.threw) st.probe( P_job_threw); else st.probe( P_job_returned);
-         if (job.solo.out.find( "Usage:") != std::string::npos) st.probe( P_job_with_usage);
-      }
+      // every process starts from the same warm state (function-local statics,
+      // lazily filled libstdc++ tables), in a batch as well as in a replay
+      warmUp();
 
       sim::ScheduleHolder  sh;
       sim::scheduleFromJson( plan.get( "sched"), sh, 400000000ULL);
@@ -205,6 +264,16 @@ public:
       sim::SchedStats  ss;
       sim::schedEnd( &ss);
       g_result = nullptr;
+
+      // "running alone": the same jobs one after the other on this thread,
+      // AFTER the concurrent phase, so that nothing the jobs need is already
+      // warm when the threads run (content-keyed caches, lazily built tables)
+      for (auto & job : jobs)
+      {
+         job.solo = recipes::evaluate( job.cfg);
+         if (job.solo.threw) st.probe( P_job_threw); else st.probe( P_job_returned);
+         if (job.solo.out.find( "Usage:") != std::string::npos) st.probe( P_job_with_usage);
+      }
 
       st.fault( F_preemption, ss.preemptions);
       st.fault( F_child_first, ss.child_first);
